@@ -141,6 +141,33 @@ def validate_traces(module, cfg, traces, *, consts=None, timeout=1800, tag='V', 
         shutil.rmtree(d, ignore_errors=True)
 
 
+def validate_loop(module, cfg, traces, on_reject, *, rounds=25, timeout=3000):
+    """validate; for every rejected trace call on_reject(trace, index, clause) -> True when the rejection is a recorded
+    known finding: the event gets a waiver for that clause and the trace is validated again, so that the rest of it is
+    examined. Returns the final verdict map {trace number (0-based): (index, clause, drift)} and the TLC state count."""
+    pending = list(range(len(traces)))
+    final, states = {}, 0
+    for _ in range(rounds):
+        if not pending:
+            break
+        verdicts, res = validate_traces(module, cfg, [traces[i] for i in pending], timeout=timeout)
+        states += res.distinct
+        again = []
+        for k, i in enumerate(pending):
+            v = verdicts[k + 1]
+            idx, clause = v[0], v[1]
+            drift = v[2][0] if len(v) > 2 and v[2] else 'ok'
+            final[i] = (idx, clause, drift)
+            if clause != 'ok':
+                evs = traces[i]['events']
+                known = on_reject(traces[i], idx, clause)
+                if known and 0 < idx <= len(evs):
+                    evs[idx - 1]['waive'] = sorted(set(evs[idx - 1].get('waive', [])) | {clause})
+                    again.append(i)
+        pending = again
+    return final, states
+
+
 def _nonull(x):
     """TLC's JsonDeserialize rejects null: the sentinel "~" stands for None"""
     if x is None:
